@@ -3,7 +3,9 @@
 //!
 //! A case is `p <ints>`: a program as a list of ops in the encoding of `lean/Driver/C01.lean`
 //! (`0` `{`, `1` `}`, `2 pre kind idx val` assignment, `3 pre tk tn dk a b` definition,
-//! `4 pre f` font selector, `5 c x y` read). The program is rendered to TeX source (one line) and
+//! `4 pre f` font selector, `5 c x y` read; `pre` = number of `\global`s, + 10 on a \count/\dimen/\skip
+//! assignment = write it as `\multiply v by 0 \advance v by val`, + 10 on a font selector = select through a fresh
+//! `\let`-alias). The program is rendered to TeX source (one line) and
 //! run by the real VM: `VM::<StdLibState>` with `StdLibState`'s own built-ins plus
 //!   * `\fA \fB \fC \nullfont` = `command::BuiltIn::new_font(Font(1|2|3|0))` (StdLibState installs
 //!     no font selector; `texlang-font` is not a dependency of the harness crate),
@@ -157,7 +159,9 @@ fn target_ok(tk: i64, tn: i64) -> bool {
 fn op_ok(op: &Op) -> bool {
     match *op {
         Op::Begin | Op::End | Op::ReadFont => true,
-        Op::Assign { pre, kind, idx, val } => (0..=2).contains(&pre) && var_ok(kind, idx) && val_ok(kind, idx, val),
+        Op::Assign { pre, kind, idx, val } => {
+            (0..=2).contains(&(pre % 10)) && (pre / 10 == 0 || (pre / 10 == 1 && (0..=2).contains(&kind))) && var_ok(kind, idx) && val_ok(kind, idx, val)
+        }
         Op::Define { pre, tk, tn, dk, a, b } => {
             (0..=2).contains(&pre)
                 && target_ok(tk, tn)
@@ -174,7 +178,7 @@ fn op_ok(op: &Op) -> bool {
                     _ => false,
                 }
         }
-        Op::Font { pre, f } => (0..=2).contains(&pre) && (0..4).contains(&f),
+        Op::Font { pre, f } => (0..=2).contains(&(pre % 10)) && pre / 10 <= 1 && (0..4).contains(&f),
         Op::ReadVar { kind, idx } => var_ok(kind, idx),
         Op::ReadCmd { tk, tn } => target_ok(tk, tn),
     }
@@ -220,6 +224,18 @@ fn render(ops: &[Op]) -> String {
         match *op {
             Op::Begin => s.push('{'),
             Op::End => s.push('}'),
+            Op::Assign { pre, kind, idx, val } if pre >= 10 => {
+                // the same assignment through math.rs: `\multiply v by 0` then `\advance v by val`, both
+                // with the same prefix (two assignments of one scope to one variable = one assignment)
+                let p = pre_tex(pre % 10);
+                let v = var_tex(kind, idx);
+                let unit = match kind {
+                    1 => "pt ",
+                    2 => "pt\\relax ",
+                    _ => " ",
+                };
+                s.push_str(&format!("{p}\\multiply {v}by 0 {p}\\advance {v}by {val}{unit}"));
+            }
             Op::Assign { pre, kind, idx, val } => {
                 s.push_str(pre_tex(pre));
                 s.push_str(&var_tex(kind, idx));
@@ -245,6 +261,10 @@ fn render(ops: &[Op]) -> String {
                     8 => s.push_str(&format!("\\let {t}=\\{} ", FONT_NAMES[a as usize])),
                     _ => s.push_str(&format!("\\let {t}={}", target_tex(a, b))),
                 }
+            }
+            Op::Font { pre, f } if pre >= 10 => {
+                // the same selection through a `\let`-alias of the selector (`\fx` is no target)
+                s.push_str(&format!("\\let \\fx =\\{} {}\\fx ", FONT_NAMES[f as usize], pre_tex(pre % 10)));
             }
             Op::Font { pre, f } => {
                 s.push_str(pre_tex(pre));
@@ -567,8 +587,14 @@ fn tags(ops: &[Op], annots: &str, spec_words: &str, out: &mut CaseOutcome) -> bo
             }
             Op::Assign { .. } | Op::Define { .. } | Op::Font { .. } => {
                 let tgt = op_target(op).unwrap();
+                if let Op::Assign { pre, kind, .. } = *op {
+                    if pre >= 10 {
+                        t.insert(format!("assign-via-\\multiply+\\advance:{}", KIND_NAMES[kind as usize]));
+                    }
+                }
                 let (name, pre) = match *op {
                     Op::Assign { kind, idx, pre, .. } => {
+                        let pre = pre % 10;
                         if kind == 6 {
                             (format!("assign:{}", PARAM_NAMES[idx as usize]), pre)
                         } else {
@@ -576,7 +602,12 @@ fn tags(ops: &[Op], annots: &str, spec_words: &str, out: &mut CaseOutcome) -> bo
                         }
                     }
                     Op::Define { dk, tk, pre, .. } => (format!("{}:{}", DEF_NAMES[dk as usize], if tk == 0 { "cs" } else { "active" }), pre),
-                    Op::Font { pre, .. } => ("font-selector".to_string(), pre),
+                    Op::Font { pre, .. } => {
+                        if pre >= 10 {
+                            t.insert("font-selector-via-\\let-alias".into());
+                        }
+                        ("font-selector".to_string(), pre % 10)
+                    }
                     _ => unreachable!(),
                 };
                 let d = match depth {
@@ -851,7 +882,11 @@ fn random_program(r: &mut Rng) -> Vec<Op> {
                 0 if r.chance(1, 10) => interesting_i32(r).max(-2147483647) as i64,
                 _ => r.range(-99, 99),
             };
-            let op = Op::Assign { pre: pick_pre(r), kind, idx, val };
+            let mut pre = pick_pre(r);
+            if kind <= 2 && r.chance(1, 5) {
+                pre += 10;
+            }
+            let op = Op::Assign { pre, kind, idx, val };
             ops.push(op);
             last = Some(op);
             if r.chance(1, 2) {
@@ -894,7 +929,11 @@ fn random_program(r: &mut Rng) -> Vec<Op> {
                 ops.push(Op::ReadCmd { tk, tn });
             }
         } else if c < 94 && use_font {
-            ops.push(Op::Font { pre: pick_pre(r), f: r.range(0, 3) });
+            let mut pre = pick_pre(r);
+            if r.chance(1, 4) {
+                pre += 10;
+            }
+            ops.push(Op::Font { pre, f: r.range(0, 3) });
             if r.chance(1, 2) {
                 ops.push(Op::ReadFont);
             }
@@ -1150,6 +1189,10 @@ impl Property for C01 {
             match &mut o[i] {
                 Op::Assign { pre, .. } | Op::Define { pre, .. } | Op::Font { pre, .. } if *pre == 2 => {
                     *pre = 1;
+                    c.push(enc(&o));
+                }
+                Op::Assign { pre, .. } | Op::Font { pre, .. } if *pre >= 10 => {
+                    *pre %= 10;
                     c.push(enc(&o));
                 }
                 _ => {}
